@@ -1,6 +1,10 @@
 package nbio
 
-import "errors"
+import (
+	"errors"
+
+	"github.com/lesismal/nbio/mempool"
+)
 
 // C17 — write-buffer bound. Inductive step from an arbitrary pre-state that
 // satisfies the representation invariant I, plus bounded histories from the
@@ -24,7 +28,7 @@ func verifInvariantI(c *Conn) bool {
 }
 
 func verifC17Step(entriesMax int, op int) {
-	w := verifUnitEngine(Config{})
+	w := verifUnitEngine(Config{BodyAllocator: mempool.New(2, 1<<20)})
 	c, f := w.verifAddStream(ConnTypeTCP)
 	g := w.g
 	max := verifInt("max", 0, 12)
@@ -98,7 +102,7 @@ func verifHarness_C17_step_flush()  { verifC17Step(2, 2) }
 // budget returns after a drain
 func verifHarness_C17_histories() {
 	verifBound("ops", 3)
-	w := verifUnitEngine(Config{})
+	w := verifUnitEngine(Config{BodyAllocator: mempool.New(2, 1<<20)})
 	c, f := w.verifAddStream(ConnTypeTCP)
 	max := 4 + verifChoose("max", 3)
 	w.g.MaxWriteBufferSize = max
